@@ -98,6 +98,8 @@ func runGenParse(path string) {
 			e["committed"] = committed
 		}
 		emit(e)
-		emit(Event{"op": "Cut", "source": "os"})
 	}
+	// one unit per run of the tool (all ten targets): what the tool writes for one target may depend on what it read for
+	// another in the same run, so a replay serves the ten recorded inputs together (seeded change C17l)
+	emit(Event{"op": "Cut", "source": "os"})
 }
